@@ -423,6 +423,18 @@ def stop_start_native(ck, prop):
 def check_c02(tier, seed):
     ck = Check('C02', tier, seed)
     stop_start_native(ck, 'C02')
+    if not ck.violations:
+        # a reader attaching while an update is in flight (the constructor is outside engine W when it touches the shared words)
+        open_race_native(ck, 'C02')
+    try:
+        return _check_c02_symbolic(ck, tier, seed)
+    except EngineError as e:
+        # outside the encodable fragment: a violation the standing native scenarios demonstrated stands; otherwise undecided
+        ck.inconclusive.append('EngineError: %s' % e)
+        return ck.finish()
+
+
+def _check_c02_symbolic(ck, tier, seed):
     P = Programs()
     base_cov(ck, P)
     Ns = [1, 2] if tier == 'quick' else [1, 2, 3, 4]
@@ -517,14 +529,14 @@ def base_cov(ck, P):
 
 
 # ----------------------------------------------------------------------------------- C03
-def open_race_native(ck):
+def open_race_native(ck, prop='C03'):
     """standing native scenario for the reader's constructor: a publication lands at each shared-memory access ShmReader::new makes
     (on the unchanged tree it makes none: the header is read through the file descriptor); the idle-writer snapshot afterwards must be
     that publication.  returns the list of runs; records a violation when a stale record is served"""
     rp = common.Replay('debug')
     runs = []
     k = 1
-    while k <= 8:
+    while k <= 8 and prop == 'C03':
         out = rp.ask('open_race %d' % k)
         f = dict(x.split('=', 1) for x in out.split()[1:] if '=' in x) if out.startswith('ok') else {}
         runs.append({'publication_at_access': k, 'out': out[:120]})
@@ -545,7 +557,13 @@ def open_race_native(ck):
         runs.append({'update_in_flight_completed_at_access': k, 'out': out[:120]})
         ck.cov['evaluations'] += 1
         ws = f.get('snapshot_words')
-        if ws is not None and ws != 'BBBBBBB' and not ws.startswith('err_'):
+        if prop == 'C02':
+            # C02: whatever the reader returns is ONE publication, whole (A or B): a mixture is a torn snapshot
+            if ws is not None and not ws.startswith('err_') and len(set(ws)) > 1:
+                ck.violation('torn-snapshot', 'a client opens the segment while an update is in flight (generation odd, words 0-3 of record B written over record A); the update completes at shared-memory access #%s of ShmReader::new (of %s); the first snapshot() of that reader returns the words %s (A = previous record, B = the completed one): a record that was never published'
+                             % (f.get('completed_at'), f.get('accesses_in_new'), ws), {'cmd': 'open_race %d mid' % k, 'native': out})
+                break
+        elif ws is not None and ws != 'BBBBBBB' and not ws.startswith('err_'):
             ck.violation('stale-when-idle', 'a client opens the segment while an update is in flight (generation odd, words 0-3 of record B written over record A); the update completes at shared-memory access #%s of ShmReader::new (of %s); the writer is idle afterwards and the first snapshot() returns the words %s (A = previous record, B = the completed one): not the last completed publication'
                          % (f.get('completed_at'), f.get('accesses_in_new'), ws), {'cmd': 'open_race %d mid' % k, 'native': out})
             break
@@ -1214,13 +1232,14 @@ def client_wrappers_bounded(ck, seed):
     # a call that ran out of retries (the daemon died inside an update while the call was copying the record) returns an error after
     # bounded work - and so does the NEXT call on the same client object
     runs2 = {}
-    for which in ('rust', 'c'):
-        out = rp.ask('nowahead %s 20000 stalled' % which)
-        runs2[which] = out[:200]
+    for which, extra in (('rust', ''), ('c', ''), ('rust', ' vclock'), ('c', ' vclock')):
+        # vclock: the same under a virtual clock - the calls start 970 ms into a second, every clock read takes 1 ms
+        out = rp.ask('nowahead %s 20000 stalled%s' % (which, extra))
+        runs2[which + extra] = out[:200]
         ck.cov['evaluations'] += 1
         if out.startswith('ok hung') and hung is None:
             ck.violation('client-call-spins', 'the daemon published a record and died inside its next update while a call of %s was copying the record; the calls on that client object: %s - a call had not returned 20 s later'
-                         % ('ClockBoundClient::now()' if which == 'rust' else 'clockbound_now()', out[out.find(')') + 1:].strip() or 'the first one never returned'), {'cmd': 'nowahead %s 20000 stalled' % which, 'native': out})
+                         % (('ClockBoundClient::now()' if which == 'rust' else 'clockbound_now()') + (' (calls starting 970 ms into a second of the clocks, 1 ms per clock read)' if extra else ''), out[out.find(')') + 1:].strip() or 'the first one never returned'), {'cmd': 'nowahead %s 20000 stalled%s' % (which, extra), 'native': out})
             pr.handled = {n for n, m in pr.failed}
             break
         if not out.startswith('ok returned') or 'call2=' not in out:
@@ -1238,9 +1257,26 @@ def client_wrappers_bounded(ck, seed):
 
 def check_c18(tier, seed):
     ck = Check('C18', tier, seed)
-    open_path_blocking(ck, seed)
+    pending = None
+    try:
+        open_path_blocking(ck, seed)
+    except EngineError as e:
+        pending = e
     if not ck.violations:
         client_wrappers_bounded(ck, seed)
+    try:
+        if pending is not None:
+            raise pending
+        return _check_c18_symbolic(ck, tier, seed)
+    except EngineError as e:
+        if not ck.violations:
+            raise
+        # outside the encodable fragment; the standing native scenarios above demonstrated a violation
+        ck.inconclusive.append('EngineError: %s' % e)
+        return ck.finish()
+
+
+def _check_c18_symbolic(ck, tier, seed):
     P = Programs(tolerate_reader_loops=True)
     if P.snap is None:
         ck.cov['functions_encoded'] = ['ShmReader::snapshot (loop by loop)', 'ShmReader::new']
@@ -1419,8 +1455,23 @@ def restart_chain_native(ck):
         if out.startswith('ok') and (f.get('via_link') != (hdr + rec).hex() or f.get('bytes') != (hdr + rec).hex()):
             bad.append('the path is a symbolic link to a valid published segment (generation 6): after the daemon start the file clients have mapped holds %s... and the path leads to %s... (still a link: %s): the valid segment was not taken over in place through the link'
                        % ((f.get('bytes') or '')[24:48], (f.get('via_link') or '')[24:48], f.get('still_link')))
+    # a valid published segment whose FILE is longer than header + record (a build that pads the segment, a larger declared size): the
+    # readers accept it, so it is live under clients: a restart takes it over in place
+    if not bad:
+        rec = struct.pack('<qqqqqIIiI', 11, 22, 33, 44, 55, 66, 0, 1, 0)
+        rp = common.Replay('debug')
+        for declared in (72, 128):
+            img = struct.pack('<IIIHH', MAGIC0, MAGIC1, declared, 1, 6) + rec + b'\0' * 56
+            out = rp.ask('recreate ' + img.hex())
+            f = dict(x.split('=', 1) for x in out.split()[1:] if '=' in x) if out.startswith('ok') else {}
+            outs.append({'valid_segment_in_a_128_byte_file_declaring_%d' % declared: out[:120]})
+            if out.startswith('ok') and (f.get('bytes') or '')[:144] != img.hex()[:144]:
+                bad.append('a valid published segment (generation 6, declared size %d) in a file of 128 bytes - readers accept it, clients may have it mapped - is not taken over in place by the daemon start: header and record afterwards %s... (was %s...)'
+                           % (declared, (f.get('bytes') or '')[16:48], img.hex()[16:48]))
+                break
+        rp.close()
     ck.cov['native_restart_chain'] = outs
-    ck.cov['evaluations'] += 10
+    ck.cov['evaluations'] += 12
     # the other half of clause (c): a daemon KILLED at any write of wipe() (cold start, or repair of an unusable file) leaves something
     # the next start repairs: the restarted daemon starts, publishes, and a new client attaches and reads that publication
     rp = common.Replay('debug')
